@@ -13,6 +13,11 @@ open OsmVerif.Model.Annotate OsmVerif.Gen.Update
 /-- the comparison of `updatesSortIndex.Less`, as extracted: index, then timestamp, then version -/
 theorem index_keys : sortIndexKeys = ["index", "timestamp", "version"] := by decide
 
+/-- the sort is the stable one (`sortBy` in the model inserts in list order, each element after those that do not sort
+    after it): updates that agree on all three keys — a history holding a version number twice — keep the order in
+    which the per-child step produced them -/
+theorem sort_is_stable : sortByIndexBody = ["sort.Stable(updatesSortIndex(us))"] := by decide
+
 abbrev less := keyLess sortIndexKeys
 
 /-- **ties only between equal keys**: two updates neither of which sorts before the other agree on
